@@ -62,9 +62,9 @@ SUBSTRATE_MIX = {
 }
 PROP_BOOST = {
     'C07': {'add_child_interface': 8, 'remove_node': 5, 'remove_component': 5, 'failing': 6, 'connect_interface': 9},
-    'C08': {'remove_node': 8, 'remove_component': 8, 'remove_network_service': 8, 'disconnect_interface': 8,
+    'C08': {'remove_node': 8, 'remove_component': 10, 'remove_network_service': 8, 'disconnect_interface': 8,
             'remove_child_interface': 5, 'unpeer': 5, 'remove_facility': 3, 'remove_switch': 3, 'prune': 3,
-            'add_child_interface': 8, 'peer': 5, 'connect_interface': 8, 'add_link': 10, 'svc_add_interface': 10,
+            'add_child_interface': 11, 'peer': 5, 'connect_interface': 13, 'add_link': 10, 'svc_add_interface': 10,
             'remove_link': 4, 'svc_remove_interface': 6, 'node_remove_network_service': 5},
     'C09': {'failing': 14, 'peer': 5, 'connect_interface': 8, 'add_child_interface': 5},
     'C02': {'set_property': 20, 'unset_property': 8, 'get_sliver': 10, 'sliver_copy': 6, 'set_properties': 4, 'prop_setter': 4,
